@@ -301,10 +301,10 @@ def _cover_fee_direction(ctx):
     amt = expr_tree(prog, h, tr[0].args[1], inline=1)
     avail = [expr_tree(prog, h, a, inline=1) for a in mins[0].args]
     VA = "p1.accounts.insurance_vault.0.pointer.amount"
-    ok_avail = any(re.fullmatch(r"phi\(%s\|transpose\(map\(maybe_take_bank_mint\(.*\),closure\{calculate_post_fee_spl_deposit_amount\(to_account_info\(p2\),%s,get\(\)\.epoch\)\}\)\)\)" % (re.escape(VA), re.escape(VA)), a) for a in avail)
+    ok_avail = any(re.fullmatch(r"phi\(%s\|transpose\(map\(maybe_take_bank_mint\(.*\),closure\{calculate_post_fee_spl_deposit_amount\(to_account_info\(a2\),%s,get\(\)\.epoch\)\}\)\)\)" % (re.escape(VA), re.escape(VA)), a) for a in avail)
     ctx.inst("C07.R3", "cover/available-insurance-net-of-transfer-fee", ok_avail,
              "available insurance = what would arrive from the whole vault balance: post-fee(vault.amount) for a Token-2022 mint, vault.amount otherwise", [a[:300] for a in avail], mins[0].loc)
-    m = re.fullmatch(r"phi\((checked_to_num\(checked_ceil\(min\(.*\)\)\))\|transpose\(map\(maybe_take_bank_mint\(.*\),closure\{calculate_pre_fee_spl_deposit_amount\(to_account_info\(p2\),(checked_to_num\(checked_ceil\(min\(.*\)\)\)),get\(\)\.epoch\)\}\)\)\)", amt)
+    m = re.fullmatch(r"phi\((checked_to_num\(checked_ceil\(min\(.*\)\)\))\|transpose\(map\(maybe_take_bank_mint\(.*\),closure\{calculate_pre_fee_spl_deposit_amount\(to_account_info\(a2\),(checked_to_num\(checked_ceil\(min\(.*\)\)\)),get\(\)\.epoch\)\}\)\)\)", amt)
     ctx.inst("C07.R3", "cover/transfer-grossed-up-for-transfer-fee", bool(m),
              "amount sent from the insurance vault = pre-fee(ceil(covered)) for a Token-2022 mint (so that ceil(covered) arrives), ceil(covered) otherwise", amt[:400], tr[0].loc)
 
@@ -317,3 +317,15 @@ def run(ctx):
         _run_c07(ctx)
     finally:
         _cover_fee_direction(ctx)
+
+
+_run_pre_leaves = run
+
+
+def run(ctx):
+    from .kernels import check_leaves
+    try:
+        _run_pre_leaves(ctx)
+    finally:
+        # leaf helpers this property's rules treat by name, pinned as complete path tables
+        check_leaves(ctx, "C07.K", ['bank.socialize_loss', 'bank.get_flag'])
